@@ -67,12 +67,14 @@ def run(chk):
         nthreads = rng.pick([1, 2, 3, 8, 20]) if sc % 10 else rng.pick([60, 150, 199])
         threads = []
         used_pt = set()
+        pid_pool = [rng.rand_range(2, 60000) for _ in range(rng.pick([1, 2, 4]))]
         lport = 20000 + rng.below(1000)
         for i in range(nthreads):
             # a thread has at most one connect between the two hooks: no two attempts of a schedule share (pid, tid)
             while True:
-                pid = AGENT_PID if rng.chance(1, 12) else rng.rand_range(2, 60000)
-                tid = pid + rng.below(4)
+                # processes with several threads connecting at once (same pid, different tids) as well as single-threaded ones
+                pid = AGENT_PID if rng.chance(1, 12) else (rng.pick(pid_pool) if rng.chance(1, 2) else rng.rand_range(2, 60000))
+                tid = pid + rng.below(64)
                 if ((pid << 32) | tid) not in used_pt:
                     used_pt.add((pid << 32) | tid)
                     break
